@@ -82,6 +82,11 @@ theorem decode_list_with_total {α : Type} (elem : Dec → Res α)
   | ok a d => rfl
   | err e d => rfl
 
+/-- `flat::decode::<T>(bytes)` (`mod.rs`: decode a `T`, then the filler) never panics, for every
+    decodable `T` and every byte string -/
+theorem decode_top_total (k : Kind) (bytes : List Byte) : (decodeTop k bytes).isPanic = false :=
+  PallasVerif.Flat.decode_top_total k bytes
+
 /-! ## The unrepaired arms panic at the recorded witnesses -/
 
 /-- #1 `Decoder::new(&[]).bool()` indexed `buffer[0]` -/
